@@ -12,12 +12,12 @@ func runCase(c Case) string {
 	switch c.Op {
 	case "SCAN":
 		src := unhex(c.Fields[0])
-		if len(src) <= 4096 {
+		if len(src) <= 512 {
 			parser.Scan(" " + src)
 		}
 		first := fmtTokens(parser.Scan(src))
 		// history: Scan is a function of its argument
-		if len(src) <= 4096 {
+		if len(src) <= 512 {
 			for _, other := range []string{src[:len(src)/2], src + "'", "\ufeff" + src, src + src} {
 				parser.Scan(other)
 				if again := fmtTokens(parser.Scan(src)); again != first {
